@@ -83,3 +83,135 @@ package state
 //@   iface
 //@   trusted
 //@   pure
+
+// ---------------------------------------------------------------------------
+// C14 / C16: account snapshots are isolated from the mutable account state, Reset restores the
+// snapshot's contents, empty accounts are deleted from the account trie, and Equal looks at the whole
+// state word
+// ---------------------------------------------------------------------------
+//@ property C14 C16
+// copies made for snapshots: a cloned deposit list shares neither its array nor its deposits with
+// the original; a cloned object graph cache is a map of its own (or nil for an empty one)
+//@ func (d depositImpl) Clone() (r)
+//@   iface
+//@   trusted
+//@   pure
+//@ func (dp *deposit) Clone() (r)
+//@   arith int
+//@   nosafety
+//@   pure
+//@   ensures [own_object] r != nil && fresh(r)
+//@ func (dl depositList) Clone() (r)
+//@   arith int
+//@   nosafety
+//@   pure
+//@   ensures [nil] dl == nil ==> r == nil
+//@   ensures [own_array] dl != nil ==> r != nil && fresh(r) && len(r) == len(dl)
+//@   ensures [own_deposits] dl != nil ==> (forall i int :: {r[i]} 0 <= i && i < len(r) ==> r[i] != nil && fresh(r[i]))
+//@   loop 0: invariant -1 <= rangeindex && rangeindex < len(dl) && fresh(deposits) && len(deposits) == len(dl)
+//@   loop 0: invariant forall i int :: {deposits[i]} 0 <= i && i <= rangeindex ==> deposits[i] != nil && fresh(deposits[i])
+//@ func (o objectGraphCache) Clone() (r)
+//@   arith int
+//@   nosafety
+//@   pure
+//@   ensures [own_map] r == nil || fresh(r)
+//@   loop 0: invariant n != nil && fresh(n)
+//@ func newContractState(snapshot, markDirty) (c)
+//@   trusted
+//@   pure
+//@   ensures snapshot == nil ==> c == nil
+//@   ensures snapshot != nil ==> c != nil && fresh(c)
+
+// Reset to another snapshot takes over the snapshot's scalar contents and gives the mutable state
+// copies of its own of everything it updates in place (deposits, object graph cache, contract states)
+//@ func (s *accountStateImpl) Reset(isnapshot) (err)
+//@   arith int
+//@   nosafety
+//@   modifies *
+//@   opt no-callee-pre
+//@   opt inline-none
+//@   opt protect fields(s), fields(as(ptr_accountSnapshotImpl, isnapshot))
+//@   requires s != nil && typeof(isnapshot) == typeid(ptr_accountSnapshotImpl) && as(ptr_accountSnapshotImpl, isnapshot) != nil
+//@   ensures [restored] err == nil && old(s.last) != as(ptr_accountSnapshotImpl, isnapshot) ==> s.last == as(ptr_accountSnapshotImpl, isnapshot) && s.balance == s.last.balance && s.isContract == s.last.isContract && s.version == s.last.version && s.state == s.last.state && s.contractOwner == s.last.contractOwner
+//@   ensures [own_deposits] err == nil && old(s.last) != as(ptr_accountSnapshotImpl, isnapshot) ==> (s.last.deposits == nil ==> s.deposits == nil) && (s.last.deposits != nil ==> s.deposits != nil && fresh(s.deposits) && len(s.deposits) == len(s.last.deposits))
+//@   ensures [own_objcache] err == nil && old(s.last) != as(ptr_accountSnapshotImpl, isnapshot) ==> s.objCache == nil || fresh(s.objCache)
+//@   ensures [own_contracts] err == nil && old(s.last) != as(ptr_accountSnapshotImpl, isnapshot) ==> (s.curContract == nil || fresh(s.curContract)) && (s.nextContract == nil || fresh(s.nextContract))
+//@   ensures [snapshot_untouched] as(ptr_accountSnapshotImpl, isnapshot).deposits == old(as(ptr_accountSnapshotImpl, isnapshot).deposits) && as(ptr_accountSnapshotImpl, isnapshot).objCache == old(as(ptr_accountSnapshotImpl, isnapshot).objCache) && as(ptr_accountSnapshotImpl, isnapshot).state == old(as(ptr_accountSnapshotImpl, isnapshot).state)
+
+// Equal (used by the object trie to skip updates that change nothing) compares the whole state word,
+// the version, the contract flag and the balance
+//@ func (s *accountSnapshotImpl) Equal(object) (r)
+//@   arith int
+//@   nosafety
+//@   modifies *
+//@   opt no-callee-pre
+//@   opt inline-none
+//@   opt protect fields(s), fields(as(ptr_accountSnapshotImpl, object)), big(s.balance), big(as(ptr_accountSnapshotImpl, object).balance)
+//@   requires typeof(object) == typeid(ptr_accountSnapshotImpl)
+//@   ensures [same_object] s == as(ptr_accountSnapshotImpl, object) ==> r
+//@   ensures [scalars] r && s != as(ptr_accountSnapshotImpl, object) ==> s != nil && as(ptr_accountSnapshotImpl, object) != nil && s.state == as(ptr_accountSnapshotImpl, object).state && s.version == as(ptr_accountSnapshotImpl, object).version && s.isContract == as(ptr_accountSnapshotImpl, object).isContract && big(s.balance) == big(as(ptr_accountSnapshotImpl, object).balance)
+
+// flushing the account cache: an account whose snapshot is empty is deleted from the account trie
+// (so that it is indistinguishable from a never-touched one), any other is stored as that snapshot
+//@ smt all (declare-fun snap_empty (Iface) Bool)
+//@ func (a AccountSnapshot) IsEmpty() (r)
+//@   iface
+//@   trusted
+//@   pure
+//@   ensures r == snap_empty(a)
+//@ func (a AccountState) GetSnapshot() (s)
+//@   iface
+//@   trusted
+//@   pure
+//@   ensures s != nil
+//@ func (ws *worldStateImpl) flushAccountCacheInLock()
+//@   arith int
+//@   nosafety
+//@   modifies *
+//@   opt ghost:flushed_count ghost(flushed_count) + 1
+//@   opt no-callee-pre
+//@   opt inline-none
+//@   requires ws != nil
+//@   callpre Delete: snap_empty(s) && k == key
+//@   callpre Set: !snap_empty(s) && k == key && o == s
+//@   loop 0: invariant true
+
+// Resetting the world state: the account trie goes back to the snapshot's trie first; then every
+// cached mutable account is reset to exactly what that trie holds under the account's own key, or
+// cleared when the trie has nothing there
+//@ func (ws *worldStateImpl) getAccountSnapshotWithKey(key) (s)
+//@   trusted
+//@   pure
+//@ func (a AccountState) Reset(snapshot) (err)
+//@   iface
+//@   trusted
+//@   modifies *
+//@ func (a AccountState) Clear()
+//@   iface
+//@   trusted
+//@   modifies *
+//@ func (ws *worldStateImpl) Reset(isnapshot) (err)
+//@   arith int
+//@   nosafety
+//@   modifies *
+//@   opt no-callee-pre
+//@   opt inline-none
+//@   opt protect fields(as(ptr_worldSnapshotImpl, isnapshot))
+//@   requires ws != nil && typeof(isnapshot) == typeid(ptr_worldSnapshotImpl) && as(ptr_worldSnapshotImpl, isnapshot) != nil
+//@   callpre MutableForObject.Reset: s == as(ptr_worldSnapshotImpl, isnapshot).accounts
+//@   callpre getAccountSnapshotWithKey: ghost(mfo_reset_to) == as(ptr_worldSnapshotImpl, isnapshot).accounts && key == as(ptr_accountStateImpl, caller_as).key
+//@   callpre AccountState.Reset: snapshot == value && value != nil && a == caller_as
+//@   callpre AccountState.Clear: value == nil && a == caller_as
+//@   loop 0: invariant ghost(mfo_reset_to) == as(ptr_worldSnapshotImpl, isnapshot).accounts
+
+// taking a world snapshot flushes the account cache first, so that the snapshot of the account trie
+// holds every account as it is now
+//@ smt all (declare-ghost flushed_count Int)
+//@ func (ws *worldStateImpl) GetSnapshot() (r)
+//@   arith int
+//@   nosafety
+//@   modifies *
+//@   opt no-callee-pre
+//@   opt inline-none
+//@   requires ws != nil
+//@   callpre MutableForObject.GetSnapshot: ghost(flushed_count) == old(ghost(flushed_count)) + 1
